@@ -40,3 +40,18 @@ Definition py_nonempty_and_last {A} (xs : list A) (t : A -> bool) : bool :=
 (* int(raw) of a table property with a default: `int(raw) if raw is not None else d`, falling back to d on
    TypeError / ValueError *)
 Definition py_prop_int_or (p : pval) (d : Z) : Z := match p with PInt n => n | _ => d end.
+
+(* for i, x in enumerate(xs): if c(x): idx = i; break   -- the index of the first element satisfying c *)
+Fixpoint py_index_where {A} (c : A -> bool) (xs : list A) : option nat :=
+  match xs with
+  | [] => None
+  | x :: xs' => if c x then Some O else option_map S (py_index_where c xs')
+  end.
+
+(* del xs[i]  (0 <= i < len xs; otherwise IndexError: not produced by the callers, returns xs) *)
+Fixpoint py_del_at {A} (i : nat) (xs : list A) : list A :=
+  match xs, i with
+  | [], _ => []
+  | _ :: xs', O => xs'
+  | x :: xs', S i' => x :: py_del_at i' xs'
+  end.
